@@ -616,6 +616,7 @@ class Subscription(BaseSubscription):
                         pstr.append(f"'{val}'")
                 if pstr:
                     pstr = ",".join(pstr)
+                    tagname = tagname.replace("'", "''")
                     subwhere.append(
                         f"id IN (SELECT id FROM tags WHERE name = '{tagname}' AND value IN ({pstr})) "
                     )
